@@ -2075,7 +2075,7 @@ sc_notify_payloadv_nbx (sc_array_t * receivers, sc_array_t * senders,
     MPI_Status          status;
 
     mpiret =
-      MPI_Iprobe (MPI_ANY_SOURCE, SC_TAG_NOTIFY_NBX, comm, &flag, &status);
+      MPI_Iprobe (MPI_ANY_SOURCE, SC_TAG_NOTIFY_NBXV, comm, &flag, &status);
     SC_CHECK_MPI (mpiret);
     if (flag) {
       int                *r;
@@ -2094,7 +2094,7 @@ sc_notify_payloadv_nbx (sc_array_t * receivers, sc_array_t * senders,
       *off = (int) recv_buf->elem_count;
 
       mpiret =
-        MPI_Recv (rc, msg_size * count, MPI_BYTE, j, SC_TAG_NOTIFY_NBX, comm,
+        MPI_Recv (rc, msg_size * count, MPI_BYTE, j, SC_TAG_NOTIFY_NBXV, comm,
                   MPI_STATUS_IGNORE);
       SC_CHECK_MPI (mpiret);
     }
